@@ -224,6 +224,14 @@ where
 
         {
             let mut guard = self.group.write();
+
+            // Another task can have created the keyspace while this one was waiting on
+            // the clock or the actor spawn. There must only ever be one state per
+            // keyspace, so the state which is already installed wins.
+            if let Some(existing) = guard.get(&name) {
+                return existing.clone();
+            }
+
             guard.insert(name.clone(), state.clone());
             #[cfg(datacake_verif)]
             datacake_crdt::verif::emit(|seq| {
